@@ -78,6 +78,9 @@ LinePrefixExoticOK(x, c, ws) == LooseEq(x, StrictLP(c, ws, TRUE), TRUE)
 (* is white space.                                                                                        *)
 IsBlank(c) == c = 32 \/ c = 9 \/ c = LF \/ c = CR
 PostCuts(post) == {k \in 0..Len(post) : \A j \in 1..k : IsBlank(post[j])}
+(* without keep_trailing_newline the engine drops one final newline of the template source                     *)
+PostTails(post) == IF post # <<>> /\ post[Len(post)] = LF THEN {0, 1} ELSE {0}
+PostCands(post) == {SubSeq(post, k + 1, Len(post) - t) : k \in PostCuts(post), t \in PostTails(post)}
 
 RECURSIVE StripL(_)
 StripL(t) == IF t # <<>> /\ IsBlank(t[1]) THEN StripL(Tail(t)) ELSE t
@@ -88,9 +91,9 @@ Strip(t) == StripR(StripL(t))
 Mid(t, pre, s) == SubSeq(t, Len(pre) + 1, Len(t) - Len(s))
 
 MarkerSplitOK(m, p, pre, post, ws, exotic) ==
-    \E k \in PostCuts(post) :
-        LET s == SubSeq(post, k + 1, Len(post))
-        IN /\ Len(pre) + Len(s) <= Len(p) /\ Len(pre) + Len(s) <= Len(m)
+    \E s \in PostCands(post) :
+        /\ TRUE
+        /\ /\ Len(pre) + Len(s) <= Len(p) /\ Len(pre) + Len(s) <= Len(m)
            /\ IsPrefix(pre, p) /\ IsSuffix(s, p) /\ IsPrefix(pre, m) /\ IsSuffix(s, m)
            /\ IF exotic THEN LinePrefixExoticOK(Mid(m, pre, s), Mid(p, pre, s), ws)
                         ELSE LinePrefixOK(Mid(m, pre, s), Mid(p, pre, s), ws)
@@ -105,16 +108,14 @@ MarkerExoticOK(m, p, pre, post, ws) ==
 (* I-layer prediction for the whole marker rendering (drift when it differs although P holds)             *)
 MarkerImplOK(m, p, pre, post, ws) ==
     p.ok = 1 /\ m.ok = 1 /\
-    \E k \in PostCuts(post) :
-        LET s == SubSeq(post, k + 1, Len(post))
-        IN /\ Len(pre) + Len(s) <= Len(p.out) /\ IsPrefix(pre, p.out) /\ IsSuffix(s, p.out)
+    \E s \in PostCands(post) :
+           /\ Len(pre) + Len(s) <= Len(p.out) /\ IsPrefix(pre, p.out) /\ IsSuffix(s, p.out)
            /\ m.out = pre \o ImplLP(Mid(p.out, pre, s), ws) \o s
 (* the text-level reading R1 for the whole rendering (only counted, for the ambiguity note)                *)
 MarkerStrictOK(m, p, pre, post, ws) ==
     p.ok = 1 /\ m.ok = 1 /\
-    \E k \in PostCuts(post) :
-        LET s == SubSeq(post, k + 1, Len(post))
-        IN /\ Len(pre) + Len(s) <= Len(p.out) /\ IsPrefix(pre, p.out) /\ IsSuffix(s, p.out)
+    \E s \in PostCands(post) :
+           /\ Len(pre) + Len(s) <= Len(p.out) /\ IsPrefix(pre, p.out) /\ IsSuffix(s, p.out)
            /\ m.out = pre \o StrictLP(Mid(p.out, pre, s), ws, FALSE) \o s
 
 (* ---------------------------------------------------------------------------------------------------- *)
